@@ -28,6 +28,7 @@ ASSUMPTIONS = [
 ]
 SHARDS = {"quick": 8, "thorough": 16}
 MIN_REACH = {
+    "runs_of_more_than_a_thousand_samples_through_a_pool": {"quick": 2, "thorough": 30},
     "samplers_whose_choices_mix_numbers_and_text": {"quick": 2, "thorough": 80},
     "runs_whose_outputs_are_all_nan": {"quick": 8, "thorough": 150},
     "tables_started_from_rows_given_at_construction": {"quick": 3, "thorough": 60},
@@ -68,6 +69,13 @@ def cases(ctx):
         for r in runs:
             # a run over a region where the function has no answer: every output of its rows is NaN (an empty cell in a csv table)
             r["nan_run"] = rng.random() < 0.15
+        if i % 20 == 5:
+            # one LONG run (more than a thousand samples) through a pool of threads
+            k_ = [k for k, r in enumerate(runs) if r["how"] == "sample"]
+            if k_:
+                runs[k_[0]]["n"] = 1030 + i % 90
+                runs[k_[0]]["pool"] = True
+                runs[k_[0]]["save_fails_first"] = False
         yield {"runs": runs, "no_args": no_args, "engine": rng.choice(["pickle", "pickle", "csv"]), "kind": rng.choice(["float", "multi:s,s", "int", "str", "frac", "frac"]),
                "constants": consts, "mem_only": rng.random() < 0.1, "seeded_table": rng.random() < 0.15, "mixed_choices": rng.random() < 0.2,
                "default_kind": rng.choice(["lists", "mixed"]), "x_dates": rng.random() < 0.3,
@@ -268,7 +276,13 @@ def run_case(ctx, case):
                     kw = {}
                     if run["shuffle"]:
                         kw["shuffle"] = run["shuffle"]
-                    last = s.sample_combos(n, override, verbosity=0, **kw, **rck)
+                    if run.get("pool"):
+                        from concurrent.futures import ThreadPoolExecutor
+                        with ThreadPoolExecutor(3) as pool_:
+                            last = s.sample_combos(n, override, verbosity=0, executor=pool_, **kw, **rck)
+                        ctx.count("runs_of_more_than_a_thousand_samples_through_a_pool")
+                    else:
+                        last = s.sample_combos(n, override, verbosity=0, **kw, **rck)
                 else:
                     ckw = {}
                     if run["batchsize"]:
